@@ -16,7 +16,7 @@
   Everything below is for all gene layouts (nested, identical starts, identical keys, both strands,
   multi-exon, origin-spanning), all query locations and all histories — no bound on sizes.
 -/
-import ASV.Proofs.LookupHist
+import ASV.Proofs.LookupOk
 namespace ASV.C08
 open ASV ASV.Lookup
 
@@ -34,6 +34,22 @@ theorem within_overlapping_exact (genes : List Gene) (hs : Sorted genes) (hok : 
     g ∈ within genes q true ↔ g ∈ genes ∧ g.loc.SharesBase q := by
   rw [mem_within hs hok q true hq g]
   simp [specKeeps, specShares, sharesPts_iff]
+
+/-- for a single-part location "contained" is the set-of-bases reading: every base of the gene is a base of
+    the location -/
+theorem contained_iff_bases_inside (g : Loc) (hg : LocOK g) (p : Part) :
+    specContained g (.simple p) = true ↔ ∀ i, g.mem i = true → (Loc.simple p).mem i = true := by
+  simp only [specContained, Loc.parts, List.all_eq_true, List.any_cons, List.any_nil, Bool.or_false,
+    Bool.and_eq_true, decide_eq_true_eq, Loc.mem, List.any_eq_true, Part.mem_iff]
+  constructor
+  · rintro h i ⟨gp, hgp, h1, h2⟩
+    have := h gp hgp
+    omega
+  · intro h gp hgp
+    have hne := (hg.2.1 gp hgp).2
+    have h1 := h gp.lo ⟨gp, hgp, by omega, by omega⟩
+    have h2 := h (gp.hi - 1) ⟨gp, hgp, by omega, by omega⟩
+    omega
 
 /-- for a single-part location the answer *is* the record's gene list filtered, order included … -/
 theorem within_simple_is_filter (genes : List Gene) (hs : Sorted genes) (hok : GenesOK genes)
@@ -156,6 +172,23 @@ theorem build_order_independent (len : Int) (ops₁ ops₂ : List Op) (r₁ r₂
   refine ⟨hg, hr, ?_, ?_⟩
   · intro aid gid; rw [mem_children, mem_children, hm]
   · intro aid gid; rw [mem_definition, mem_definition, hd]
+
+/-- a history of well-formed calls runs without an exception exactly when its calls are pairwise compatible
+    (distinct gene locations and names, non-overlapping regions) and its areas lie inside the record … -/
+theorem history_succeeds_iff (len : Int) (ops : List Op) (hok : ∀ op ∈ ops, OpOK op) :
+    (∃ r, run len ops = .ok r) ↔ Valid len ops :=
+  run_ok_iff hok
+
+/-- … so if one ordering of the calls runs through, every ordering does, and with the same outcome -/
+theorem build_order_never_matters (len : Int) (ops₁ ops₂ : List Op) (r₁ : Rec) (hp : ops₁.Perm ops₂)
+    (hok : ∀ op ∈ ops₁, OpOK op) (h1 : run len ops₁ = .ok r₁) :
+    ∃ r₂, run len ops₂ = .ok r₂ ∧
+      (∀ g, g ∈ r₁.genes ↔ g ∈ r₂.genes) ∧ (∀ a, a ∈ r₁.regions ↔ a ∈ r₂.regions) ∧
+      (∀ aid gid, gid ∈ r₁.children aid ↔ gid ∈ r₂.children aid) ∧
+      (∀ aid gid, gid ∈ r₁.definition aid ↔ gid ∈ r₂.definition aid) := by
+  have hok2 : ∀ op ∈ ops₂, OpOK op := fun op hop => hok op (hp.mem_iff.2 hop)
+  obtain ⟨r₂, h2⟩ := (run_ok_iff hok2).2 (((run_ok_iff hok).1 ⟨r₁, h1⟩).perm hp)
+  exact ⟨r₂, h2, build_order_independent len ops₁ ops₂ r₁ r₂ hp hok h1 h2⟩
 
 /-- … and every gene points to the same region -/
 theorem build_order_independent_region (len : Int) (ops₁ ops₂ : List Op) (r₁ r₂ : Rec) (hp : ops₁.Perm ops₂)
